@@ -46,7 +46,7 @@ Example problem_nonvacuous : indices_ok 2 wW /\ indices_ok 2 aW /\ indices_ok 4 
 Proof. exact (conj wW_ok (conj aW_ok lW_ok)). Qed.
 
 Theorem returned_tables_symmetric :
-  forall (F : Type) (Fo : FieldOps F) (Ff : IsField F) D N (X : mat F) (W : sparse F) (dv : vec F),
+  forall (F : Type) (Fo : FieldOps F) D N (X : mat F) (W : sparse F) (dv : vec F),
     msym D (p_lhs (npe_repaired X N W)) /\ msym D (p_rhs (npe_repaired X N W)) /\
     msym D (p_lhs (lltsa_repaired X N W)) /\ msym D (p_rhs (lltsa_repaired X N W)) /\
     msym D (p_lhs (lltsa_fixed X N W)) /\ msym D (p_rhs (lltsa_fixed X N W)) /\
@@ -64,7 +64,7 @@ Print Assumptions npe_seen_refuted.
 Theorem lltsa_seen_refuted :
   exists N D (X : mat Qc) (W : sparse Qc),
     indices_ok N W /\ ~ solver_sees D (lltsa_lhs_f9 N X W) (lltsa_rhs N X) (lltsa_shipped X N W).
-Proof. exact (ex_intro _ 2%nat (ex_intro _ 2%nat (ex_intro _ wX (ex_intro _ wW lltsa_seen_refuted_w)))). Qed.
+Proof. exact (ex_intro _ 2%nat (ex_intro _ 2%nat (ex_intro _ wX2 (ex_intro _ wW lltsa_seen_refuted_w)))). Qed.
 Print Assumptions lltsa_seen_refuted.
 
 Theorem lpp_seen_refuted :
@@ -130,15 +130,15 @@ Print Assumptions lltsa_f9_translation_refuted.
 
 Theorem lltsa_f9_centred_ok :
   forall (F : Type) (Fo : FieldOps F) (Ff : IsField F) D N (X : mat F) (W : sparse F),
-    indices_ok N W -> (forall f, f < D -> sumn N (fun s => X f s) = 0) ->
+    indices_ok N W -> (forall f, (f < D)%nat -> sumn N (fun s => X f s) = 0) ->
     is_pencil D (XMXt N X (sym2 (dense_of W))) (XMXt N X (Jn N)) (lltsa_repaired X N W).
 Proof. exact (@Pencil_Proof.lltsa_f9_centred_ok). Qed.
 Print Assumptions lltsa_f9_centred_ok.
 
 Example lltsa_f9_centred_nonvacuous :
-  indices_ok 4 lW /\ (forall f, f < 1 -> sumn 4 (fun s => lX f s) = 0).
+  indices_ok 4 lW /\ (forall f, (f < 1)%nat -> sumn 4 (fun s => lX f s) = 0).
 Proof.
-  exact (conj lW_ok (fun f Hf => match f as f0 return (f0 < 1 -> sumn 4 (fun s => lX f0 s) = 0) with
+  exact (conj lW_ok (fun f Hf => match f as f0 return ((f0 < 1)%nat -> sumn 4 (fun s => lX f0 s) = 0) with
                                  | O => fun _ => eq_refl
                                  | S k => fun H => False_ind _ (Nat.nlt_0_r k (proj2 (Nat.succ_lt_mono k 0) H))
                                  end Hf)).
@@ -158,19 +158,19 @@ Proof. exact (conj aW_ok (conj aW_zero_sums (Qc_of_nat_neq0 2 (Nat.neq_succ_0 1)
 
 (* ---------- 4. column selection and the oracle contract ---------- *)
 Theorem select_cols_in_range :
-  forall (F : Type) (Fo : FieldOps F) D d (V : mat F),
-    d <= D -> exists P, select_cols D d V = Ok P /\ forall i j, P i j = V i j.
+  forall (F : Type) D d (V : mat F),
+    (d <= D)%nat -> exists P, select_cols D d V = Ok P /\ forall i j, P i j = V i j.
 Proof. exact (@select_cols_ok). Qed.
 Print Assumptions select_cols_in_range.
 
 Theorem select_cols_out_of_range :
-  forall (F : Type) (Fo : FieldOps F) D d (V : mat F), D < d -> select_cols D d V = OOB 3 d D.
+  forall (F : Type) D d (V : mat F), (D < d)%nat -> select_cols D d V = OOB 3 d D.
 Proof. exact (@select_cols_oob). Qed.
 Print Assumptions select_cols_out_of_range.
 
 Theorem npe_solution :
   forall (F : Type) (Fo : FieldOps F) (Ff : IsField F) D d N (X : mat F) (W : sparse F) (V P : mat F) lam,
-    indices_ok N W -> d <= D ->
+    indices_ok N W -> (d <= D)%nat ->
     oracle_contract D (p_lhs (seen (npe_repaired X N W))) (p_rhs (seen (npe_repaired X N W))) V lam ->
     select_cols D d V = Ok P ->
     gen_eig_solution D d (XMXt N X (sym2 (dense_of W))) (XMXt N X mI) P lam.
@@ -179,7 +179,7 @@ Print Assumptions npe_solution.
 
 Theorem lltsa_solution :
   forall (F : Type) (Fo : FieldOps F) (Ff : IsField F) D d N (X : mat F) (W : sparse F) (V P : mat F) lam,
-    indices_ok N W -> d <= D ->
+    indices_ok N W -> (d <= D)%nat ->
     oracle_contract D (p_lhs (seen (lltsa_fixed X N W))) (p_rhs (seen (lltsa_fixed X N W))) V lam ->
     select_cols D d V = Ok P ->
     gen_eig_solution D d (XMXt N X (sym2 (dense_of W))) (XMXt N X (Jn N)) P lam.
@@ -188,7 +188,7 @@ Print Assumptions lltsa_solution.
 
 Theorem lpp_solution :
   forall (F : Type) (Fo : FieldOps F) (Ff : IsField F) D d N (X : mat F) (L : sparse F) dv (V P : mat F) lam,
-    indices_ok N L -> d <= D ->
+    indices_ok N L -> (d <= D)%nat ->
     oracle_contract D (p_lhs (seen (lpp_repaired X N L dv))) (p_rhs (seen (lpp_repaired X N L dv))) V lam ->
     select_cols D d V = Ok P ->
     gen_eig_solution D d (XMXt N X (sym2 (dense_of L))) (XMXt N X (mdiag dv)) P lam.
@@ -196,10 +196,10 @@ Proof. exact (@Pencil_Proof.lpp_solution). Qed.
 Print Assumptions lpp_solution.
 
 Example solution_nonvacuous :
-  (indices_ok 2 eW /\ 1 <= 2 /\
+  (indices_ok 2 eW /\ (1 <= 2)%nat /\
    oracle_contract 2 (p_lhs (seen (npe_repaired eX 2 eW))) (p_rhs (seen (npe_repaired eX 2 eW))) eV elam /\
    exists P, select_cols 2 1 eV = Ok P) /\
-  (indices_ok 4 lW /\ 1 <= 1 /\
+  (indices_ok 4 lW /\ (1 <= 1)%nat /\
    oracle_contract 1 (p_lhs (seen (lltsa_fixed lX 4 lW))) (p_rhs (seen (lltsa_fixed lX 4 lW))) lV llam) /\
   (oracle_contract 2 (p_lhs (seen (lpp_repaired eX 2 eW wdv))) (p_rhs (seen (lpp_repaired eX 2 eW wdv))) eV elam).
 Proof.
@@ -210,7 +210,7 @@ Qed.
 (* per-column sign is free, and is the only freedom inside a one-dimensional eigenspace *)
 Theorem column_sign_free :
   forall (F : Type) (Fo : FieldOps F) (Ff : IsField F) D d (A B P : mat F) lam (sg : vec F),
-    (forall j, j < d -> sg j * sg j = 1) ->
+    (forall j, (j < d)%nat -> sg j * sg j = 1) ->
     gen_eig_solution D d A B P lam ->
     gen_eig_solution D d A B (fun i j => sg j * P i j) lam.
 Proof. exact (@gen_eig_solution_sign). Qed.
@@ -218,14 +218,14 @@ Print Assumptions column_sign_free.
 
 Theorem normalised_multiple_is_plus_or_minus :
   forall (F : Type) (Fo : FieldOps F) (Ff : IsField F) D (B : mat F) (p q : vec F) c,
-    (forall i, i < D -> q i = c * p i) ->
+    (forall i, (i < D)%nat -> q i = c * p i) ->
     dot D p (mv D B p) = 1 -> dot D q (mv D B q) = 1 ->
     c * c = 1 /\ (c <> 1 -> c = - (1)).
 Proof. exact (@normalised_multiple_is_sign). Qed.
 Print Assumptions normalised_multiple_is_plus_or_minus.
 
 Example sign_nonvacuous :
-  (forall j, j < 1 -> (fun _ : nat => (- (1))%F) j * (fun _ : nat => (- (1))%F) j = (1 : Qc)) /\
+  (forall j, (j < 1)%nat -> (fun _ : nat => (- (1))%F) j * (fun _ : nat => (- (1))%F) j = (1 : Qc)) /\
   gen_eig_solution 2 1 (npe_lhs 2 eX eW) (npe_rhs 2 eX) eV elam.
 Proof. exact (conj (fun j _ => eq_refl) e_solution). Qed.
 
